@@ -9,7 +9,6 @@ from vlib.core import Ctx, hexs, unhex, ddmin, ModelBuildError
 
 ID = "C20"
 MODULES = ["IoraModel.Props.C20"]
-OBLIGATIONS = []          # filled from props/c20_obligations.json-like table below (kept in this file)
 ANCHOR_FILES = ["include/iora/web/assets.hpp"]
 
 W_TOKEN = b"@W@"          # placeholder for the sandbox directory in symbolic ops (corpus / replay files are portable)
@@ -399,21 +398,23 @@ def mutate_name(s, rng, t):
 
 
 def gen_names(t, base, rng, n):
+    """list of (name, pristine): pristine = an unmutated relative spelling of something that exists"""
     cands = rel_names(t, base) if base is not None else []
     cands += [b"a.txt", b"s.css", b"d1/a.txt"]
     out = []
     for _ in range(n):
-        s = rng.choice(cands)
+        s0 = rng.choice(cands)
+        s = s0
         # spell the way through a symbolic link now and then
         if rng.chance(1, 5):
             links = [p for p in t.paths() if t.ent[p][0] == "l" and base is not None and p[:len(base)] == base]
             if links:
                 l = rng.choice(links)
                 s = b"/".join(l[len(base):]) + b"/" + rng.choice([b"a.txt", b"secret.txt", b"dir/secret2.txt", b"d1/a.txt", s])
-        s = mutate_name(s, rng, t)
+        s1 = mutate_name(s, rng, t)
         if rng.chance(1, 12):
-            s = mutate_name(s, rng, t)
-        out.append(s)
+            s1 = mutate_name(s1, rng, t)
+        out.append((s1, s1 == s0))
     return out
 
 
@@ -451,7 +452,7 @@ def ref_contained_canonical(base, target):
 
 
 # ------------------------------------------------------------------ case generation
-def gen_fs_case(rng, idx, quick):
+def gen_fs_case(rng, idx, quick, wlen):
     t, cfg = gen_tree(rng)
     cwd_p = rng.choice([(), (b"app",), (b"outside",)])
     sops = [tree_op(t, abs_of(cwd_p))]
@@ -472,7 +473,7 @@ def gen_fs_case(rng, idx, quick):
     for _ in range(rng.range(0, 3)):       # relative to the working directory
         names = rel_names(t, cwd_p) or [b"a.txt"]
         s = mutate_name(rng.choice(names), rng, t).replace(b"\0", b"")
-        if s[:1] != b"/" or s.startswith(b"//"):
+        if not s.startswith(b"/"):
             sops.append([rng.choice(["wc", "stat"]), H(s)])
     # the instance
     root_spellings = [abs_of((b"app",)), abs_of((b"app",)) + b"/", abs_of((b"approot",)), abs_of(()) + b"//app/./", abs_of((b"app", b"static", b"..")),
@@ -493,21 +494,32 @@ def gen_fs_case(rng, idx, quick):
     for kind, key in (("static", "static"), ("template", "templates")):
         base = cfg[key]
         names = gen_names(t, base if base is not None else (b"app", key.encode()), rng, nnames if kind == "static" else nnames // 3)
-        if kind == "static" and rng.chance(1, 3):
-            names += boundary_names(len(b"/x/.work/C20-quick-12345/sb/app/static"), rng)   # rough; exact ones are added at render time
-        for nm in names:
+        if base is not None and rng.chance(1, 3):
+            # names whose candidate string <root>/<name> is exactly around PATH_MAX (the root is canonical: sandbox + base)
+            names += [(n, False) for n in boundary_names(wlen + sum(len(x) + 1 for x in base), rng)]
+        swap_targets = [abs_of((b"outside", b"secret.txt")), b"../" * 6 + b"outside/secret.txt", b"a.txt", b"nonexistent", abs_of((b"outside",)),
+                        abs_of((b"outside", b"a.txt.gz"))]
+        for nm, pristine in names:
             sops.append([kind, H(nm)])
             if rng.chance(1, 6):
                 sops.append([kind, H(nm)])                      # hit the cache
             if rng.chance(1, 25):
                 sops += gen_mutation(t, cfg, rng, kind, nm)
-            if rng.chance(1, 20):
-                sops.append(["swap" + kind, H(nm), H(rng.choice([abs_of((b"outside", b"secret.txt")), b"../../outside/secret.txt",
-                                                                 b"a.txt", b"nonexistent", abs_of((b"outside",))]))])
+            if rng.chance(1, 6 if pristine else 30):
+                # the schedule {resolve, swap the leaf for a link, open}; a reload first so that the open is reached
+                if rng.chance(2, 3):
+                    sops.append(["reload"])
+                sops.append(["swap" + kind, H(nm), H(rng.choice(swap_targets))])
                 sops.append([kind, H(nm)])
+                note_swap(t, base, nm)
             if rng.chance(1, 40):
                 sops.append(["reload"])
     return {"sops": sops, "tree_obj": t, "cfg": cfg, **meta}
+
+
+def note_swap(t, base, nm):
+    """the generator's tree is only used to pick later names; a swapped leaf is simply forgotten as a file"""
+    return
 
 
 def gen_mutation(t, cfg, rng, kind, nm):
@@ -539,7 +551,7 @@ def gen_mutation(t, cfg, rng, kind, nm):
         out.append(["rm", H(abs_of(p))])
     elif k == 3:
         gz = p[:-1] + (p[-1] + b".gz",)
-        if gz in t.ent and t.ent[gz][0] == "d":
+        if (gz in t.ent and t.ent[gz][0] == "d") or len(gz[-1]) > 255:
             return out
         tgt = rng.choice([abs_of((b"outside", b"a.txt.gz")), b"a.txt"])
         t.ent[gz] = ("l", tgt)
@@ -559,7 +571,11 @@ def gen_emb_case(rng, idx, quick):
     sops = [tree_op(t, abs_of(cwd_p))]
     extdir = rng.choice([abs_of((b"ext",)), abs_of((b"ext",)) + b"/", abs_of((b"extlink",)), abs_of((b"missing-ext",)), abs_of((b"missing-ext",)) + b"/",
                          b"", abs_of((b"app", b"..", b"ext")), abs_of((b"outside", b"secret.txt"))] + ([b"ext", b"./ext/", b"extlink"] if cwd_p == () else [b"../ext"]))
-    names = gen_names(t, (b"ext",), rng, 40)
+    names = [n for n, _ in gen_names(t, (b"ext",), rng, 40)]
+    # registry tables must be SORTED (binary search): keys containing the sandbox placeholder would sort differently once rendered
+    reg_ok = [n for n in names if W_TOKEN not in n]
+    names_all = names
+    names = reg_ok + [b"a.txt"] * (9 - len(reg_ok)) if len(reg_ok) < 9 else reg_ok
     emb_names = sorted(set([b"e1.txt", b"dir/e2.css", b"a.txt"] + [n for n in names[:6] if not ref_lexrej(n)]))
     statics = []
     for i, n in enumerate(emb_names):
@@ -569,7 +585,644 @@ def gen_emb_case(rng, idx, quick):
     externals = sorted(set(names[9:] + [b"a.txt", b"e1.txt"]))
     # records are comma/colon separated hex: any byte string is fine
     sops.append(["newemb", H(extdir), ("l", statics), ("l", templates), ("l", [[x] for x in externals])])
-    for nm in names + [b"e1.txt", b"dir/e2.css", b"t.html", b"a.txt"]:
+    for nm in names_all + [b"e1.txt", b"dir/e2.css", b"t.html", b"a.txt"]:
+        sops.append(["static", H(nm)])
+        if rng.chance(1, 3):
+            sops.append(["template", H(nm)])
+        if rng.chance(1, 15):
+            sops.append(["swapstatic", H(nm), H(rng.choice([abs_of((b"outside", b"secret.txt")), b"../outside/secret.txt"]))])
+    return {"sops": sops, "tree_obj": t, "cfg": cfg, "cat": "embedded", "tree": idx, "emb_contents": [s[1] for s in statics] + [s[2] for s in statics if s[2]] + [x[1] for x in templates]}
+
+
+def gen_pure_case(rng):
+    sops = []
+    for _ in range(60):
+        k = rng.below(3)
+        if k == 0:
+            sops.append(["norm", H(rand_lex_path(rng))])
+        elif k == 1:
+            sops.append(["cont", H(rand_lex_path(rng)), H(rand_lex_path(rng))])
+        else:
+            n = mutate_name(rng.choice([b"a.txt", b"d1/a.txt", b"x/y/z"]), rng, Tree())
+            sops.append(["lexrej", H(n if len(n) < 600 else n[:600])])
+    return {"sops": sops, "cat": "pure"}
+
+
+def gen_storm_case(rng, idx, iters):
+    for _ in range(20):
+        t, cfg = gen_tree(rng)
+        if all((b"app", sub) in t.ent and t.ent[(b"app", sub)][0] == "d" for sub in (b"static", b"templates")):
+            break
+    else:
+        return None
+    sops = [tree_op(t, abs_of(()))]
+    good = b"GOOD-CONTENT-%d" % idx
+    victims = [(b"app", b"static", b"victim.txt"), (b"app", b"templates", b"victim.txt")]
+    for v in victims:
+        sops.append(["put", "f", H(abs_of(v)), H(good)])
+    sops.append(["put", "f", H(abs_of((b"app", b"static", b"victim.txt.gz"))), H(good)])
+    sops.append(["newfs", H(abs_of((b"app",))), "1" if rng.chance(1, 2) else "0"])
+    target = rng.choice([abs_of((b"outside", b"secret.txt")), b"../../outside/secret.txt"])
+    for v in victims + [(b"app", b"static", b"victim.txt.gz")]:
+        sops.append(["storm", str(iters), H(b"victim.txt"), H(abs_of(v)), H(good), H(target)])
+        sops.append(["static", H(b"victim.txt")])
+        sops.append(["template", H(b"victim.txt")])
+    return {"sops": sops, "tree_obj": t, "cfg": cfg, "cat": "storm", "tree": idx}
+
+
+# ------------------------------------------------------------------ monitors (implementation output only + what the generator created)
+def split_oracle(line):
+    if " # " in line:
+        a, b = line.split(" # ", 1)
+        return a, dict(kv.split("=", 1) for kv in b.split() if "=" in kv)
+    return line, {}
+
+
+def comps_of(b):
+    return [x for x in b.split(b"/") if x]
+
+
+def under(root_comps, path_comps):
+    return path_comps[:len(root_comps)] == root_comps
+
+
+ANCHOR_FILES = ["include/iora/web/assets.hpp"]
+
+W_TOKEN = b"@W@"          # placeholder for the sandbox directory in symbolic ops (corpus / replay files are portable)
+
+
+# ------------------------------------------------------------------ symbolic ops
+def H(b):
+    return ("h", bytes(b))
+
+
+def E(kind, path, data=b""):
+    return ("e", kind, bytes(path), bytes(data))
+
+
+def render_tok(tok, W):
+    if isinstance(tok, str):
+        return tok
+    if tok[0] == "h":
+        return hexs(tok[1].replace(W_TOKEN, W))
+    if tok[0] == "e":
+        k, p, d = tok[1], tok[2].replace(W_TOKEN, W), tok[3].replace(W_TOKEN, W)
+        return "d:%s" % hexs(p) if k == "d" else "%s:%s:%s" % (k, hexs(p), hexs(d))
+    if tok[0] == "l":      # comma list of colon records of byte strings / None
+        if not tok[1]:
+            return "-"
+        return ",".join(":".join("~" if x is None else hexs(x.replace(W_TOKEN, W)) for x in rec) for rec in tok[1])
+    raise ValueError(tok)
+
+
+def render(sop, W):
+    return " ".join(render_tok(t, W) for t in sop)
+
+
+def sop_to_json(sop):
+    out = []
+    for t in sop:
+        if isinstance(t, str):
+            out.append(t)
+        elif t[0] == "chain":
+            out.append({"chain": 1})
+        elif t[0] == "h":
+            out.append({"h": t[1].decode("latin-1")})
+        elif t[0] == "e":
+            out.append({"e": [t[1], t[2].decode("latin-1"), t[3].decode("latin-1")]})
+        else:
+            out.append({"l": [[None if x is None else x.decode("latin-1") for x in rec] for rec in t[1]]})
+    return out
+
+
+def sop_from_json(js):
+    out = []
+    for t in js:
+        if isinstance(t, str):
+            out.append(t)
+        elif "chain" in t:
+            out.append(("chain",))
+        elif "h" in t:
+            out.append(("h", t["h"].encode("latin-1")))
+        elif "e" in t:
+            out.append(("e", t["e"][0], t["e"][1].encode("latin-1"), t["e"][2].encode("latin-1")))
+        else:
+            out.append(("l", [[None if x is None else x.encode("latin-1") for x in rec] for rec in t["l"]]))
+    return out
+
+
+# ------------------------------------------------------------------ tree generator
+POOL_FILES = [b"a.txt", b"b.html", b"img.PNG", b"noext", b".hidden", b"x.tar.gz", b"s.css", b"y.js", b"%2e%2e", b"sp ace.txt",
+              b"caf\xc3\xa9.txt", b"back\\slash.txt", b"..hidden", b"...", b"a..b", b"index.HTM", b"f.svg", b"q.json", b"%2f", b".. "]
+POOL_DIRS = [b"d1", b"d2", b"d.dir", b"deep", b"img", b"..d", b"%2e"]
+LONG255 = b"L" * 255
+
+
+class Tree:
+    """A physical directory tree below the sandbox: tuple of names -> ('d',) | ('f', content) | ('l', target)."""
+    def __init__(self):
+        self.ent = {(): ("d",)}
+        self.order = []
+        self.n = 0
+        self.content_path = {}     # content -> physical path tuple (contents are unique)
+
+    def free(self, p):
+        return p not in self.ent and p[:-1] in self.ent and self.ent[p[:-1]][0] == "d" and len(p) <= 9
+
+    def fresh(self, p, tag=b"C"):
+        self.n += 1
+        c = tag + b"%d:" % self.n + b"/".join(p)[-40:]
+        self.content_path[c] = p
+        return c
+
+    def add_dir(self, p):
+        if self.free(p):
+            self.ent[p] = ("d",)
+            self.order.append(p)
+            return True
+        return p in self.ent and self.ent[p][0] == "d"
+
+    def add_file(self, p, content=None):
+        if not self.free(p):
+            return False
+        c = content if content is not None else self.fresh(p)
+        self.content_path.setdefault(c, p)
+        self.ent[p] = ("f", c)
+        self.order.append(p)
+        return True
+
+    def add_link(self, p, target):
+        if not self.free(p) or not target or len(target) > 3000:
+            return False
+        self.ent[p] = ("l", target)
+        self.order.append(p)
+        return True
+
+    def dirs(self):
+        return [p for p in self.ent if self.ent[p][0] == "d"]
+
+    def paths(self):
+        return list(self.ent.keys())
+
+
+def abs_of(p):
+    return W_TOKEN + b"".join(b"/" + n for n in p)
+
+
+def rel_target(frm_dir, to, rng):
+    """a relative spelling of physical path `to` as seen from physical directory `frm_dir`"""
+    k = 0
+    while k < len(frm_dir) and k < len(to) and frm_dir[k] == to[k]:
+        k += 1
+    if rng.chance(1, 5) and k > 0:
+        k -= 1          # go one level higher than necessary
+    parts = [b".."] * (len(frm_dir) - k) + list(to[k:])
+    if not parts:
+        parts = [b"."]
+    return parts
+
+
+def noise(parts, rng, absolute):
+    out = b"/" if absolute else b""
+    for i, c in enumerate(parts):
+        if i:
+            out += rng.choice([b"/", b"/", b"/", b"//", b"/./"])
+        elif not absolute and rng.chance(1, 8):
+            out += b"./"
+        out += c
+    if rng.chance(1, 8):
+        out += rng.choice([b"/", b"/.", b"//"])
+    return out
+
+
+def gen_link_target(t, at_dir, rng):
+    k = rng.below(20)
+    allp = t.paths()
+    if k < 11:
+        to = rng.choice(allp)
+        if rng.chance(1, 3):
+            return abs_of(to) + (b"/" if rng.chance(1, 10) else b"")
+        return noise(rel_target(at_dir, to, rng), rng, False)
+    if k < 13:
+        return rng.choice([b"nonexistent", b"../nonexistent/x", abs_of((b"outside", b"gone")), b"d1/missing"])
+    if k < 15:
+        return rng.choice([b".", b"..", b"../..", b"./", b"../", b"/", b"//", b"../../.."])
+    if k < 17:
+        to = rng.choice(allp)
+        return noise(rel_target(at_dir, to, rng) + [rng.choice(POOL_FILES + POOL_DIRS)], rng, False)
+    if k < 18:
+        return rng.choice([b"self", b"loopA", b"loopB"])
+    to = rng.choice(allp)
+    return noise(rel_target(at_dir, to, rng) + [b"..", rng.choice(POOL_FILES + POOL_DIRS)], rng, False)
+
+
+def gen_tree(rng):
+    t = Tree()
+    cfg = {}
+    t.add_dir((b"app",))
+    t.add_dir((b"outside",))
+    t.add_file((b"outside", b"secret.txt"), t.fresh((b"outside", b"secret.txt"), b"SECRET"))
+    t.add_dir((b"outside", b"dir"))
+    t.add_file((b"outside", b"dir", b"secret2.txt"), t.fresh((b"outside", b"dir", b"secret2.txt"), b"SECRET"))
+    t.add_file((b"outside", b"a.txt"), t.fresh((b"outside", b"a.txt"), b"SECRET"))
+    t.add_file((b"outside", b"a.txt.gz"), t.fresh((b"outside", b"a.txt.gz"), b"SECRET"))
+    t.add_dir((b"ext",))
+    # the two roots, in several shapes
+    for sub, key in ((b"static", "static"), (b"templates", "templates")):
+        k = rng.below(40)
+        p = (b"app", sub)
+        if k < 30:
+            t.add_dir(p)
+            cfg[key] = p
+        elif k < 32:
+            cfg[key] = None                                   # missing at construction
+        elif k < 35:
+            real = (b"app", b"real-" + sub)
+            t.add_dir(real)
+            t.add_link(p, rng.choice([b"real-" + sub, b"./real-" + sub + b"/", abs_of(real)]))
+            cfg[key] = real
+        elif k < 37:
+            t.add_link(p, rng.choice([b"../outside", abs_of((b"outside",)), b"../outside/dir/.."]))
+            cfg[key] = (b"outside",)                          # configuration points the root outside the app dir: that IS the root
+        elif k < 38:
+            t.add_file(p)
+            cfg[key] = None
+        elif k < 39:
+            t.add_link(p, b"nowhere")
+            cfg[key] = None
+        else:
+            t.add_link(p, sub)                                # self loop
+            cfg[key] = None
+    # sibling-prefix decoys
+    t.add_dir((b"app", b"static2"))
+    t.add_file((b"app", b"static2", b"a.txt"), t.fresh((b"app", b"static2", b"a.txt"), b"SECRET"))
+    t.add_file((b"app", b"staticx"), t.fresh((b"app", b"staticx"), b"SECRET"))
+    t.add_file((b"app", b"top.txt"), t.fresh((b"app", b"top.txt"), b"SECRET"))
+    bases = [b for b in (cfg["static"], cfg["templates"], (b"ext",)) if b is not None and b in t.ent and t.ent[b][0] == "d"]
+    # populate
+    for b in bases:
+        for _ in range(rng.range(1, 3)):
+            d = b
+            for _ in range(rng.range(1, 3)):
+                d = d + (rng.choice(POOL_DIRS),)
+                t.add_dir(d)
+        if rng.chance(1, 6):
+            t.add_dir(b + (LONG255,))
+            t.add_file(b + (LONG255, b"a.txt"))
+            t.add_file(b + (LONG255[:200] + b".txt",))
+    for _ in range(rng.range(6, 16)):
+        d = rng.choice(t.dirs())
+        t.add_file(d + (rng.choice(POOL_FILES),))
+    for b in bases:
+        t.add_file(b + (b"a.txt",))
+        if rng.chance(1, 2):
+            t.add_file(b + (b"s.css",))
+    # gz siblings of every shape
+    for p in [p for p in t.paths() if t.ent[p][0] == "f" and p[0] != b"outside"]:
+        if rng.chance(1, 4):
+            gz = p[:-1] + (p[-1] + b".gz",)
+            k = rng.below(6)
+            if k < 3:
+                t.add_file(gz)
+            elif k == 3:
+                t.add_link(gz, noise(rel_target(gz[:-1], (b"outside", b"secret.txt"), rng), rng, False))
+            elif k == 4:
+                t.add_dir(gz)
+            else:
+                inside = [q for q in t.paths() if t.ent[q][0] == "f" and q[0] != b"outside"]
+                t.add_link(gz, noise(rel_target(gz[:-1], rng.choice(inside), rng), rng, False))
+    # symbolic links
+    for i in range(rng.range(4, 12)):
+        d = rng.choice(t.dirs())
+        name = rng.choice([b"ln%d" % i, b"ln%d.txt" % i, b"ln%d.html" % i, b"self", b"loopA", b"loopB"])
+        t.add_link(d + (name,), gen_link_target(t, d, rng))
+    # a chain of links across the ELOOP boundary
+    if rng.chance(1, 4) and bases:
+        b = rng.choice(bases)
+        n = rng.choice([38, 39, 40, 41, 42])
+        if t.add_file(b + (b"chain-end.txt",)):
+            for i in range(n):
+                t.add_link(b + (b"c%d" % i,), b"c%d" % (i + 1) if i + 1 < n else b"chain-end.txt")
+            cfg["chain"] = (b, n)
+    # alternative spellings of the application root
+    t.add_link((b"approot",), rng.choice([b"app", b"./app/", abs_of((b"app",)), b"app/."]))
+    t.add_link((b"extlink",), b"ext")
+    return t, cfg
+
+
+def tree_op(t, cwd):
+    chain = ("chain",)
+    toks = ["tree", H(cwd), chain]
+    for p in t.order:
+        e = t.ent[p]
+        toks.append(E(e[0], abs_of(p), e[1] if len(e) > 1 else b""))
+    return toks
+
+
+def render_tree_tok(tok, W):
+    # the chain of real directories from `/` down to the sandbox (for the model only; the harness checks they exist)
+    parts = [x for x in W.split(b"/") if x]
+    out = []
+    for i in range(1, len(parts) + 1):
+        out.append("d:%s" % hexs(b"/" + b"/".join(parts[:i])))
+    return " ".join(out)
+
+
+def render_case(sops, W):
+    out = []
+    for sop in sops:
+        toks = []
+        for t in sop:
+            if isinstance(t, tuple) and t[0] == "chain":
+                toks.append(render_tree_tok(t, W))
+            else:
+                toks.append(render_tok(t, W))
+        out.append(" ".join(toks))
+    return out
+
+
+# ------------------------------------------------------------------ name generator
+def rel_names(t, base):
+    """relative spellings that lead (physically or through links) to something, seen from directory `base`"""
+    out = []
+    for p in t.paths():
+        if len(p) > len(base) and p[:len(base)] == base:
+            out.append(b"/".join(p[len(base):]))
+    return out
+
+
+def mutate_name(s, rng, t):
+    k = rng.below(44)
+    if k < 8 or rng.chance(1, 5):
+        return s
+    if k == 8:
+        return s.replace(b"/", b"//")
+    if k == 9:
+        return s.replace(b"/", b"/./")
+    if k == 10:
+        return b"./" + s
+    if k == 11:
+        return b"/" + s
+    if k == 12:
+        return b"../" * rng.range(1, 4) + s
+    if k == 13:
+        return b"..\\" * rng.range(1, 3) + s
+    if k == 14:
+        return s + rng.choice([b"/", b"//", b"/.", b"/./", b"/./."])
+    if k == 15:
+        return s + b"/.."
+    if k == 16:
+        return s + b"/" + rng.choice(POOL_FILES + POOL_DIRS)
+    if k == 17:
+        parts = s.split(b"/")
+        return b"/".join(parts[:-1] + [rng.choice(POOL_DIRS), b"..", parts[-1]])
+    if k == 18:
+        return b"%2e%2e/" * rng.range(1, 3) + s
+    if k == 19:
+        return s.replace(b"/", b"%2f").replace(b".", b"%2e")
+    if k == 20:
+        return s + b"\0" + rng.choice([b".png", b"", b"/../x"])
+    if k == 21:
+        return rng.choice([b"\0", b"\0/"]) + s
+    if k == 22:
+        return s.replace(b"/", b"\\") if b"/" in s else s + b"\\"
+    if k == 23:
+        return s.swapcase()
+    if k == 24:
+        return s + b".gz"
+    if k == 25:
+        return rng.choice([b"...", b"....", b".. ", b" ..", b"..;", b"..%00", b". .", b".", b"", b"./", b".//.", b"./.", b"..", b"../"])
+    if k == 26:
+        return s + b"/" + rng.choice([b"...", b".. ", b"..."]) + b"/" + s
+    if k == 27:
+        return rng.choice([b"A" * 255, b"A" * 256, b"A" * 300, LONG255, LONG255 + b"/a.txt", LONG255 + b"x/a.txt", LONG255[:200] + b".txt"])
+    if k == 28:
+        return s + b"/" + b"A" * rng.choice([255, 256])
+    if k == 29:
+        return b"./" * rng.choice([2040, 2100, 1800]) + s
+    if k == 30:
+        return b"d1/" * rng.choice([1400, 30]) + s
+    if k == 31:
+        return abs_of((b"outside", b"secret.txt"))
+    if k == 32:
+        return rng.choice([b"/etc/passwd", b"//etc/passwd", b"/", b"//"])
+    if k == 33:
+        links = [p for p in t.paths() if t.ent[p][0] == "l"]
+        if links:
+            return rng.choice(links)[-1] + rng.choice([b"", b"/", b"/secret.txt", b"/secret2.txt", b"/a.txt", b"/dir/secret2.txt", b"/."])
+        return s
+    if k == 34:
+        return s.replace(b".", b"..", 1)
+    if k == 35:
+        return b"static/" + s
+    if k == 36:
+        i = rng.below(len(s) + 1)
+        return s[:i] + bytes([rng.choice([0, 92, 47, 46, 37, 255, 128, 10, 32])]) + s[i:]
+    if k == 37 and s:
+        i = rng.below(len(s))
+        return s[:i] + s[i + 1:]
+    if k == 38:
+        return s + rng.choice([b" ", b".", b"..", b"/ ", b"\t"])
+    if k == 39:
+        return rng.choice([b"../static/", b"../static2/", b"../templates/", b"./../"]) + s
+    if k == 40:
+        return rng.choice([b"..", b"../..", b"../../outside/secret.txt", b"d1/../../top.txt", b"..//top.txt", b"./../top.txt"])
+    if k == 41:
+        return b"c0"
+    if k == 42:
+        return s.replace(b"/", b"/" * rng.range(2, 5))
+    return rng.choice(POOL_FILES)
+
+
+def gen_names(t, base, rng, n):
+    """list of (name, pristine): pristine = an unmutated relative spelling of something that exists"""
+    cands = rel_names(t, base) if base is not None else []
+    cands += [b"a.txt", b"s.css", b"d1/a.txt"]
+    out = []
+    for _ in range(n):
+        s0 = rng.choice(cands)
+        s = s0
+        # spell the way through a symbolic link now and then
+        if rng.chance(1, 5):
+            links = [p for p in t.paths() if t.ent[p][0] == "l" and base is not None and p[:len(base)] == base]
+            if links:
+                l = rng.choice(links)
+                s = b"/".join(l[len(base):]) + b"/" + rng.choice([b"a.txt", b"secret.txt", b"dir/secret2.txt", b"d1/a.txt", s])
+        s1 = mutate_name(s, rng, t)
+        if rng.chance(1, 12):
+            s1 = mutate_name(s1, rng, t)
+        out.append((s1, s1 == s0))
+    return out
+
+
+def boundary_names(root_len, rng):
+    """names whose candidate string <root>/<name> is exactly around PATH_MAX"""
+    out = []
+    for total in (4094, 4095, 4096, 4097):
+        pad = total - root_len - 1 - len(b"a.txt")
+        if pad > 0:
+            out.append(b"./" * (pad // 2) + (b"/" if pad % 2 else b"") + b"a.txt")
+    return out
+
+
+# ------------------------------------------------------------------ independent references (generator side)
+def ref_lexrej(p):
+    if not p:
+        return False
+    return p[:1] == b"/" or b"\0" in p or b"\\" in p or b".." in p.split(b"/")
+
+
+def rand_lex_path(rng):
+    parts = [rng.choice([b"a", b"b", b"..", b".", b"", b"c.txt", b"...", b"..a", b"static", b"static2"]) for _ in range(rng.range(0, 6))]
+    s = b"/".join(parts)
+    if rng.chance(1, 2):
+        s = b"/" + s
+    if rng.chance(1, 4):
+        s += b"/"
+    return s
+
+
+def ref_contained_canonical(base, target):
+    b = [x for x in base.split(b"/") if x]
+    tt = [x for x in target.split(b"/") if x]
+    return tt[:len(b)] == b
+
+
+# ------------------------------------------------------------------ case generation
+def gen_fs_case(rng, idx, quick, wlen):
+    t, cfg = gen_tree(rng)
+    cwd_p = rng.choice([(), (b"app",), (b"outside",)])
+    sops = [tree_op(t, abs_of(cwd_p))]
+    meta = {"cat": "fs", "tree": idx}
+    # a few direct probes of the platform model
+    for _ in range(rng.range(2, 6)):
+        p = rng.choice(t.paths())
+        s = abs_of(p)
+        if rng.chance(1, 2):
+            s = mutate_name(s, rng, t)
+            if s[:1] != b"/" and not s.startswith(W_TOKEN):
+                s = abs_of(()) + b"/" + s
+        if b"\0" in s:
+            s = s.replace(b"\0", b"")
+        if not s.startswith(W_TOKEN):
+            s = abs_of(()) + b"/" + s.lstrip(b"/")
+        sops.append([rng.choice(["wc", "wc", "stat", "read"]), H(s)])
+    for _ in range(rng.range(0, 3)):       # relative to the working directory
+        names = rel_names(t, cwd_p) or [b"a.txt"]
+        s = mutate_name(rng.choice(names), rng, t).replace(b"\0", b"")
+        if not s.startswith(b"/"):
+            sops.append([rng.choice(["wc", "stat"]), H(s)])
+    # the instance
+    root_spellings = [abs_of((b"app",)), abs_of((b"app",)) + b"/", abs_of((b"approot",)), abs_of(()) + b"//app/./", abs_of((b"app", b"static", b"..")),
+                      abs_of((b"outside", b"..", b"app"))]
+    if cwd_p == ():
+        root_spellings += [b"app", b"./app", b"app/", b"approot", b"approot/."]
+    elif cwd_p == (b"app",):
+        root_spellings += [b".", b"./", b"../app", b"static/.."]
+    else:
+        root_spellings += [b"../app", b"../approot/"]
+    if rng.chance(1, 12):
+        root_spellings = [abs_of((b"app", b"top.txt")), abs_of((b"missing",)), b"", abs_of((b"app", b"static", b"a.txt", b"x"))]
+    root = rng.choice(root_spellings)
+    per = rng.chance(1, 3)
+    sops.append(["newfs", H(root), "1" if per else "0"])
+    meta["per_request"] = per
+    nnames = 50 if quick else 70
+    for kind, key in (("static", "static"), ("template", "templates")):
+        base = cfg[key]
+        names = gen_names(t, base if base is not None else (b"app", key.encode()), rng, nnames if kind == "static" else nnames // 3)
+        if base is not None and rng.chance(1, 3):
+            # names whose candidate string <root>/<name> is exactly around PATH_MAX (the root is canonical: sandbox + base)
+            names += [(n, False) for n in boundary_names(wlen + sum(len(x) + 1 for x in base), rng)]
+        swap_targets = [abs_of((b"outside", b"secret.txt")), b"../" * 6 + b"outside/secret.txt", b"a.txt", b"nonexistent", abs_of((b"outside",)),
+                        abs_of((b"outside", b"a.txt.gz"))]
+        for nm, pristine in names:
+            sops.append([kind, H(nm)])
+            if rng.chance(1, 6):
+                sops.append([kind, H(nm)])                      # hit the cache
+            if rng.chance(1, 25):
+                sops += gen_mutation(t, cfg, rng, kind, nm)
+            if rng.chance(1, 6 if pristine else 30):
+                # the schedule {resolve, swap the leaf for a link, open}; a reload first so that the open is reached
+                if rng.chance(2, 3):
+                    sops.append(["reload"])
+                sops.append(["swap" + kind, H(nm), H(rng.choice(swap_targets))])
+                sops.append([kind, H(nm)])
+                note_swap(t, base, nm)
+            if rng.chance(1, 40):
+                sops.append(["reload"])
+    return {"sops": sops, "tree_obj": t, "cfg": cfg, **meta}
+
+
+def note_swap(t, base, nm):
+    """the generator's tree is only used to pick later names; a swapped leaf is simply forgotten as a file"""
+    return
+
+
+def gen_mutation(t, cfg, rng, kind, nm):
+    """environment steps between lookups: replace/remove/create objects, then look the same name up again (cache staleness)"""
+    out = []
+    base = cfg["static" if kind == "static" else "templates"]
+    if base is None:
+        return out
+    comps = [c for c in nm.split(b"/") if c and c != b"."]
+    if not comps or b".." in comps or b"\0" in nm or b"\\" in nm or any(len(c) > 255 for c in comps) or len(comps) > 5:
+        return out
+    p = base + tuple(comps)
+    if p[:-1] not in t.ent or t.ent[p[:-1]][0] != "d":
+        return out
+    k = rng.below(5)
+    old = t.ent.get(p)
+    if old is not None and old[0] == "d":
+        return out
+    if k == 0:
+        c = t.fresh(p, b"NEW")
+        t.ent[p] = ("f", c)
+        out.append(["put", "f", H(abs_of(p)), H(c)])
+    elif k == 1:
+        tgt = rng.choice([abs_of((b"outside", b"secret.txt")), b"../" * len(p[1:]) + b"outside/secret.txt", b"a.txt", b"missing"])
+        t.ent[p] = ("l", tgt)
+        out.append(["put", "l", H(abs_of(p)), H(tgt)])
+    elif k == 2 and old is not None:
+        del t.ent[p]
+        out.append(["rm", H(abs_of(p))])
+    elif k == 3:
+        gz = p[:-1] + (p[-1] + b".gz",)
+        if (gz in t.ent and t.ent[gz][0] == "d") or len(gz[-1]) > 255:
+            return out
+        tgt = rng.choice([abs_of((b"outside", b"a.txt.gz")), b"a.txt"])
+        t.ent[gz] = ("l", tgt)
+        out.append(["put", "l", H(abs_of(gz)), H(tgt)])
+    else:
+        return out
+    out.append([kind, H(nm)])
+    if rng.chance(1, 2):
+        out.append(["reload"])
+        out.append([kind, H(nm)])
+    return out
+
+
+def gen_emb_case(rng, idx, quick):
+    t, cfg = gen_tree(rng)
+    cwd_p = rng.choice([(), (b"app",)])
+    sops = [tree_op(t, abs_of(cwd_p))]
+    extdir = rng.choice([abs_of((b"ext",)), abs_of((b"ext",)) + b"/", abs_of((b"extlink",)), abs_of((b"missing-ext",)), abs_of((b"missing-ext",)) + b"/",
+                         b"", abs_of((b"app", b"..", b"ext")), abs_of((b"outside", b"secret.txt"))] + ([b"ext", b"./ext/", b"extlink"] if cwd_p == () else [b"../ext"]))
+    names = [n for n, _ in gen_names(t, (b"ext",), rng, 40)]
+    # registry tables must be SORTED (binary search): keys containing the sandbox placeholder would sort differently once rendered
+    reg_ok = [n for n in names if W_TOKEN not in n]
+    names_all = names
+    names = reg_ok + [b"a.txt"] * (9 - len(reg_ok)) if len(reg_ok) < 9 else reg_ok
+    emb_names = sorted(set([b"e1.txt", b"dir/e2.css", b"a.txt"] + [n for n in names[:6] if not ref_lexrej(n)]))
+    statics = []
+    for i, n in enumerate(emb_names):
+        c = b"EMB%d:" % i + n[-20:]
+        statics.append([n, c, (b"EMBGZ%d" % i) if rng.chance(1, 3) else None])
+    templates = sorted([[n, b"EMBT:" + n[-20:]] for n in set([b"t.html", b"p/q.html"] + names[6:9])], key=lambda r: r[0])
+    externals = sorted(set(names[9:] + [b"a.txt", b"e1.txt"]))
+    # records are comma/colon separated hex: any byte string is fine
+    sops.append(["newemb", H(extdir), ("l", statics), ("l", templates), ("l", [[x] for x in externals])])
+    for nm in names_all + [b"e1.txt", b"dir/e2.css", b"t.html", b"a.txt"]:
         sops.append(["static", H(nm)])
         if rng.chance(1, 3):
             sops.append(["template", H(nm)])
@@ -637,11 +1290,11 @@ def monitor_case(c, ops, impl, W):
     contents = {}
     emb_ok = set(c.get("emb_contents", []))
     roots = {"static": None, "template": None}
-    for sop, line in zip(c["sops"], impl):
+    for idx, (sop, line) in enumerate(zip(c["sops"], impl)):
         main, orc = split_oracle(line)
         op = sop[0]
         if (main.startswith("throw") and not (op == "newfs" and main == "throw")) or main.startswith("crash:"):
-            bad.append("C20: lookup throws/crashes: %s -> %s" % (op, main[:80]))
+            bad.append((idx, "C20: lookup throws/crashes: %s -> %s" % (op, main[:80])))
             continue
         if op == "tree":
             contents = {}
@@ -662,7 +1315,7 @@ def monitor_case(c, ops, impl, W):
                     rpc = comps_of(unhex(rp))
                     for k in ("static", "template"):
                         if not roots[k]:
-                            bad.append("C20: empty %s root" % k)
+                            bad.append((idx, "C20: empty %s root" % k))
         if op == "newemb":
             ext = sop[1][1].replace(W_TOKEN, W)
             roots = {"static": "ext", "template": None, "extdir": ext}
@@ -673,7 +1326,7 @@ def monitor_case(c, ops, impl, W):
             if f and f[0] == "found":
                 got = [unhex(f[1])] + ([unhex(f[2].replace("!gzflag", ""))] if not f[2].startswith("~") else [])
                 if "!gzflag" in f[2]:
-                    bad.append("C20: gzipVariantExists disagrees with gzipBytes")
+                    bad.append((idx, "C20: gzipVariantExists disagrees with gzipBytes"))
             elif f and f[0] == "some":
                 got = [unhex(f[1])]
             for g in got:
@@ -681,29 +1334,29 @@ def monitor_case(c, ops, impl, W):
                     continue
                 wheres = contents.get(g)
                 if wheres is None:
-                    bad.append("C20: %s %r returned bytes that are no file's content: %r" % (op, sop[1][1][:60], g[:60]))
+                    bad.append((idx, "C20: %s %r returned bytes that are no file's content: %r" % (op, sop[1][1][:60], g[:60])))
                     continue
                 r = roots.get(kind)
                 if r == "ext":
                     # physical external root: the generator only creates `ext`
                     r = comps_of(W) + [b"ext"]
                 if r is None or not any(under(r, comps_of(W) + list(w)) and comps_of(W) + list(w) != r for w in wheres):
-                    bad.append("C20: %s %r returned the content of %r which is OUTSIDE the %s root %r" %
-                               (op, sop[1][1][:80], [b"/".join(w) for w in wheres][:3], kind, b"/" + b"/".join(r) if r else None))
+                    bad.append((idx, "C20: %s %r returned the content of %r which is OUTSIDE the %s root %r" %
+                               (op, sop[1][1][:80], [b"/".join(w) for w in wheres][:3], kind, b"/" + b"/".join(r) if r else None)))
             if got and op in ("static", "template") and "rp" in orc:
                 r = roots.get(kind)
                 if r == "ext":
                     r = comps_of(W) + [b"ext"]
                 if orc["rp"] == "~":
-                    bad.append("C20: %s %r served but the OS cannot resolve <root>/<name>" % (op, sop[1][1][:80]))
+                    bad.append((idx, "C20: %s %r served but the OS cannot resolve <root>/<name>" % (op, sop[1][1][:80])))
                 elif r is not None and not under(r, comps_of(unhex(orc["rp"]))):
-                    bad.append("C20: %s %r served but realpath(<root>/<name>) = %r is outside the root" % (op, sop[1][1][:80], unhex(orc["rp"])[-80:]))
+                    bad.append((idx, "C20: %s %r served but realpath(<root>/<name>) = %r is outside the root" % (op, sop[1][1][:80], unhex(orc["rp"])[-80:])))
         if op == "storm" and not main.startswith("storm ok"):
-            bad.append("C20: swap storm: %s" % main[:120])
+            bad.append((idx, "C20: swap storm: %s" % main[:120]))
         if op == "lexrej" and main in ("0", "1"):
             nm = sop[1][1].replace(W_TOKEN, W)
             if (main == "1") != ref_lexrej(nm):
-                bad.append("A1: lexicallyRejected(%r) = %s, reference says %s" % (nm[:60], main, ref_lexrej(nm)))
+                bad.append((idx, "A1: lexicallyRejected(%r) = %s, reference says %s" % (nm[:60], main, ref_lexrej(nm))))
     return bad
 
 
@@ -759,9 +1412,89 @@ def strip_oracles(lines):
     return [split_oracle(l)[0] for l in lines]
 
 
-def run(ctx: Ctx):
-    quick = ctx.tier == "quick"
-    rng = ctx.rng
+STATEFUL = ("tree", "put", "rm", "newfs", "newemb", "reload", "swapstatic", "swaptemplate", "storm")
+
+
+def run_impl_only(ctx, hb, env, W, sops):
+    ops = render_case(sops, W)
+    out, rc, err = ctx.run_lines([hb], ops, timeout=300, env=env)
+    return out + ["crash:%s" % rc] * (len(ops) - len(out))
+
+
+def shrink(ctx, hb, env, W, c, fail_idx, cls):
+    """smallest op list (tree + state-changing ops + the failing lookup) on which the SAME monitor class still fails on the real code"""
+    sops = c["sops"]
+
+    def fails(sub):
+        cc = dict(c)
+        cc["sops"] = sub
+        return any(m.split(":")[0] == cls for _, m in monitor_case(cc, None, run_impl_only(ctx, hb, env, W, sub), W))
+    try:
+        cand = [s for i, s in enumerate(sops[:fail_idx]) if s[0] in STATEFUL] + [sops[fail_idx]]
+        if not fails(cand):
+            cand = sops[:fail_idx + 1]
+            if not fails(cand):
+                return sops
+        head, tail = cand[:1], cand[1:]
+        if len(tail) > 1:
+            tail = ddmin(tail, lambda sub: fails(head + sub), max_tests=40)
+        return head + tail
+    except Exception:
+        return sops
+
+
+def report(ctx, hb, env, W, c, impl, model, fails):
+    idx, msg = fails[0]
+    if not ctx.violation_budget("property", msg):
+        ctx.violation("property", msg)
+        return
+    small = shrink(ctx, hb, env, W, c, idx, msg.split(":")[0])
+    obs = run_impl_only(ctx, hb, env, W, small) if small is not c["sops"] else impl
+    ctx.violation("property", msg, {"sops": [sop_to_json(s) for s in small], "ops_readable": [describe(s) for s in small][-12:],
+                                    "failures": [m for _, m in fails[:5]], "category": c["cat"], "observed": obs[-12:],
+                                    "expected_by_model": (model[idx] if model else None), "shrunk_from_ops": len(c["sops"])}, found_input=True)
+
+
+def evaluate(ctx, hb, env, W, cases, acc):
+    """lockstep + monitors for one batch of cases"""
+    for c in cases:
+        c["ops"] = render_case(c["sops"], W)
+    try:
+        res = ctx.lockstep("assets", hb, cases, impl_env=env, timeout=2400)
+    except ModelBuildError:
+        # the model driver does not build (a changed Gen fact broke the model): still search for a failing input with the
+        # implementation-only monitors (DESIGN §5.2)
+        res = [(c, run_impl_only(ctx, hb, env, W, c["sops"]), None) for c in cases]
+    for c, impl, model in res:
+        acc["dist"][c["cat"]] = acc["dist"].get(c["cat"], 0) + 1
+        core = strip_oracles(impl)
+        for sop, l in zip(c["sops"], core):
+            if sop[0] in ("norm", "tree", "put", "rm", "reload"):
+                k = sop[0]
+            else:
+                k = sop[0] + ":" + (l.split()[0] if l else "") + ((" " + l.split()[-1]) if "swapped=" in l else "")
+            acc["opstat"][k] = acc["opstat"].get(k, 0) + 1
+        ctx.count_case("\n".join(c["ops"]), nontrivial=any(l.startswith("found") or l.startswith("some") for l in core))
+        if len(ctx.cov["samples"]) < 6 and ctx.rng.chance(1, 8):
+            ctx.sample({"cat": c["cat"], "ops": [describe(o) for o in c["sops"][1:7]], "impl": [l[:160] for l in impl[1:7]]})
+        fails = monitor_case(c, None, impl, W)
+        mism = [(i, a, b) for i, (a, b) in enumerate(zip(core, model)) if a != b] if model is not None else []
+        if fails:
+            report(ctx, hb, env, W, c, impl, model, fails)
+        elif mism:
+            acc["mismatch"] += 1
+            if acc["mismatch"] <= 3:
+                i, a, b = mism[0]
+                keep = [s for s in c["sops"][:i] if s[0] in STATEFUL] + [c["sops"][i]]
+                ctx.violation("correspondence", "model and implementation disagree (no property monitor fails on this case): op `%s` impl=`%s` model=`%s`"
+                              % (describe(c["sops"][i]), a[:140], b[:140]),
+                              {"broken": {"correspondence": "assets lockstep (harness/c20_assets.cpp vs Model/Assets.lean)", "detail": "first differing op index %d" % i},
+                               "sops": [sop_to_json(s) for s in keep], "observed": a, "expected_by_model": b, "category": c["cat"]}, found_input=False)
+        c.pop("ops", None)
+        c.pop("tree_obj", None)
+
+
+def setup(ctx, quick):
     ctx.translate(["assets"])
     ok_build = ctx.lake_build(MODULES)
     if ok_build:
@@ -771,77 +1504,82 @@ def run(ctx: Ctx):
     else:
         ctx.cov["obligations"] = len(OBLIGATIONS)
     hb = ctx.build_harness("harness/c20_assets.cpp", sanitize=True)
-    dist = {}
+    sandbox = os.path.join(os.path.realpath(ctx.work), "sb")
+    os.makedirs(sandbox, exist_ok=True)
+    stats = os.path.join(os.path.realpath(ctx.work), "stats.txt")
+    return hb, {"C20_SANDBOX": sandbox, "C20_STATS": stats}, sandbox.encode(), stats
+
+
+def replay(ctx):
+    """Re-run the symbolic op list of a replay / corpus file on the real code and the model; exit 1 if it still fails."""
+    obj = json.load(open(ctx.replay))
+    hb, env, W, _ = setup(ctx, True)
+    if not hb or not obj.get("sops"):
+        print("replay: nothing to run (kind=%s)" % obj.get("kind"))
+        return 1 if ctx.violations else 0
+    c = {"cat": obj.get("category", "replay"), "sops": [sop_from_json(x) for x in obj["sops"]]}
+    c["ops"] = render_case(c["sops"], W)
+    try:
+        (c, impl, model), = ctx.lockstep("assets", hb, [c], impl_env=env)
+    except ModelBuildError:
+        impl, model = run_impl_only(ctx, hb, env, W, c["sops"]), None
+    for i, sop in enumerate(c["sops"]):
+        print("op    %s\n impl  %s\n model %s" % (describe(sop), impl[i][:200], (model[i][:200] if model else "-")))
+    fails = monitor_case(c, None, impl, W)
+    for _, f in fails:
+        print("PROPERTY FAILS:", f[:300])
+    still = bool(fails) or (model is not None and strip_oracles(impl) != model)
+    print("replay: %s" % ("still failing" if still else "no longer failing"))
+    import shutil
+    shutil.rmtree(ctx.work, ignore_errors=True)
+    return 1 if still else 0
+
+
+def run(ctx: Ctx):
+    if ctx.replay:
+        return replay(ctx)
+    quick = ctx.tier == "quick"
+    rng = ctx.rng
+    hb, env, W, stats = setup(ctx, quick)
+    acc = {"dist": {}, "opstat": {}, "mismatch": 0}
     if hb:
-        sandbox = os.path.join(os.path.realpath(ctx.work), "sb")
-        os.makedirs(sandbox, exist_ok=True)
-        W = sandbox.encode()
-        stats = os.path.join(os.path.realpath(ctx.work), "stats.txt")
-        env = {"C20_SANDBOX": sandbox, "C20_STATS": stats}
-        n_fs, n_emb, n_pure, n_storm, storm_iters = (120, 30, 20, 3, 4000) if quick else (2400, 600, 200, 30, 60000)
-        cases = load_corpus()
+        n_fs, n_emb, n_pure, n_storm, storm_iters = (260, 60, 30, 3, 4000) if quick else (3200, 720, 300, 24, 40000)
         r1, r2, r3, r4 = rng.fork("fs"), rng.fork("emb"), rng.fork("pure"), rng.fork("storm")
-        for i in range(n_fs):
-            cases.append(gen_fs_case(r1, i, quick))
-        for i in range(n_emb):
-            cases.append(gen_emb_case(r2, i, quick))
-        for i in range(n_pure):
-            cases.append(gen_pure_case(r3))
-        for i in range(n_storm):
-            c = gen_storm_case(r4, i, storm_iters)
-            if c:
-                cases.append(c)
-        for c in cases:
-            c["ops"] = render_case(c["sops"], W)
-        try:
-            res = ctx.lockstep("assets", hb, cases, impl_env=env, timeout=1500)
-        except ModelBuildError:
-            # the model driver does not build (a changed Gen fact broke the model): still search for a failing input with the
-            # implementation-only monitors (DESIGN §5.2)
-            allops = [o for c in cases for o in c["ops"]]
-            out, rc, err = ctx.run_lines([hb], allops, timeout=1500, env=env)
-            out = out + ["crash:%s" % rc] * (len(allops) - len(out))
-            res, k = [], 0
-            for c in cases:
-                res.append((c, out[k:k + len(c["ops"])], None))
-                k += len(c["ops"])
-        n_mismatch = 0
-        opstat = {}
-        for c, impl, model in res:
-            dist[c["cat"]] = dist.get(c["cat"], 0) + 1
-            core = strip_oracles(impl)
-            for sop, l in zip(c["sops"], core):
-                if sop[0] in ("norm", "tree", "put", "rm", "reload"):
-                    k = sop[0]
-                else:
-                    k = sop[0] + ":" + (l.split()[0] if l else "") + ((" " + l.split()[-1]) if "swapped=" in l else "")
-                opstat[k] = opstat.get(k, 0) + 1
-            ctx.count_case("\n".join(c["ops"]), nontrivial=any(l.startswith("found") or l.startswith("some") for l in core))
-            if len(ctx.cov["samples"]) < 6 and rng.chance(1, 8):
-                ctx.sample({"cat": c["cat"], "ops": [o[:200] for o in c["ops"][1:7]], "impl": [l[:160] for l in impl[1:7]]})
-            fails = monitor_case(c, c["ops"], impl, W)
-            mism = [(i, a, b) for i, (a, b) in enumerate(zip(core, model)) if a != b] if model is not None else []
-            if fails:
-                report(ctx, c, impl, model, fails, W)
-            elif mism:
-                n_mismatch += 1
-                if n_mismatch <= 3:
-                    i, a, b = mism[0]
-                    ctx.violation("correspondence", "model and implementation disagree (no property monitor fails on this case): op `%s` impl=`%s` model=`%s`"
-                                  % (describe(c["sops"][i]), a[:140], b[:140]),
-                                  {"broken": {"correspondence": "assets lockstep (harness/c20_assets.cpp vs Model/Assets.lean)", "detail": "first differing op index %d" % i},
-                                   "sops": [sop_to_json(s) for s in c["sops"][:i + 1] if s[0] in ("tree", "put", "rm", "newfs", "newemb", "reload") or s is c["sops"][i]],
-                                   "observed": a, "expected_by_model": b, "category": c["cat"]}, found_input=False)
-        ctx.extra["op_outcomes"] = dict(sorted(opstat.items()))
+        plan = [("corpus", None)] + [("fs", i) for i in range(n_fs)] + [("emb", i) for i in range(n_emb)] + \
+               [("pure", i) for i in range(n_pure)] + [("storm", i) for i in range(n_storm)]
+        batch = []
+
+        def flush():
+            if batch:
+                evaluate(ctx, hb, env, W, batch, acc)
+                del batch[:]
+        for kind, i in plan:
+            if kind == "corpus":
+                batch += load_corpus()
+            elif kind == "fs":
+                batch.append(gen_fs_case(r1, i, quick, len(W)))
+            elif kind == "emb":
+                batch.append(gen_emb_case(r2, i, quick))
+            elif kind == "pure":
+                batch.append(gen_pure_case(r3))
+            else:
+                c = gen_storm_case(r4, i, storm_iters)
+                if c:
+                    batch.append(c)
+            if len(batch) >= 200:
+                flush()
+        flush()
+        ctx.extra["op_outcomes"] = dict(sorted(acc["opstat"].items()))
         if os.path.exists(stats):
             ctx.extra["storm_stats"] = open(stats).read().splitlines()[:40]
-    ctx.extra["input_distribution"] = dist
+    ctx.extra["input_distribution"] = acc["dist"]
     ctx.extra["repo_tree_sha"] = ctx.repo_tree_sha(ANCHOR_FILES)
     ctx.extra["not_proved"] = NOT_PROVED
     ctx.assumptions += ["the file-system model functions (kernel path walk, realpath, status, weakly_canonical, lexically_normal/relative, open(O_NOFOLLOW)) are assumptions about libstdc++/glibc/Linux; "
                         "their agreement with the real ones is checked by lockstep on generated trees, not proved",
                         "all directories searchable and files readable (no permission errors); only regular files, directories and symbolic links; hard links, mount points and /proc magic links are out of scope",
-                        "embedded registry tables are sorted by key (the build generator's contract)"]
+                        "embedded registry tables are sorted by key (the build generator's contract)",
+                        "existing absolute paths stay below PATH_MAX (realpath's long-path fallback of libstdc++ is not modelled)"]
     return ctx.finish(level="proof", rule="a case = one generated directory tree (materialised under .work) + one Assets instance + its list of lookups / direct probes; "
                       "distinct = distinct op lists; non-trivial = at least one lookup returned bytes")
 
@@ -856,14 +1594,6 @@ def describe(sop):
         else:
             out.append("…")
     return " ".join(out)[:200]
-
-
-def report(ctx, c, impl, model, fails, W):
-    if not ctx.violation_budget("property", fails[0]):
-        ctx.violation("property", fails[0])
-        return
-    ctx.violation("property", fails[0], {"sops": [sop_to_json(s) for s in c["sops"]], "failures": fails[:5], "category": c["cat"],
-                                        "observed": impl[:400], "expected_by_model": model[:400] if model else None}, found_input=True)
 
 
 def load_corpus():
